@@ -188,3 +188,15 @@ claim("C18",
       "values of exp/sqrt/division chains. Atom spellings are enumerated; a re-spelling outside the enumerated forms is reported as a missing test. "
       "Trusted: CFG builder, meaning of .any()/.all()/torch.equal/isinstance.",
       "DESIGN.md section 4, C18")
+
+claim("C19",
+      "def-chain analysis of the pair-list predicate (radial-form recognition, power/cutoff agreement), masked-call discipline for the overlap routines, "
+      "affine distance taint + frozen threshold inventory, element-wise pattern check of the core-electron blocks, sympy limits of the symbolically interpreted core-core energy",
+      "Decides the cutoff clause completely at the source level (the kept set is the open ball of the configured radius in the raw coordinate "
+      "difference, nothing else filters pairs, default radius is infinite for any molecule) and the structural necessary conditions of "
+      "additivity: no other distance switch exists apart from the inventoried overlap truncation at 40 bohr, overlap routines never see "
+      "pairs beyond it, every core-electron element is -Z_partner (mu nu|ss) of the same rotated integrals, core-core tends to "
+      "Z_A Z_B (ss|ss) with corrections o(r^-6).",
+      "Does not decide the numerical decay exponent of the residual interaction nor the asymptotics of the multipole integrals themselves. "
+      "Trusted: sympy limits, radial-form recogniser (square-sum / norm spellings enumerated).",
+      "DESIGN.md section 4, C19")
